@@ -307,6 +307,10 @@ pub fn diff(args: &Args) -> i32 {
         };
         idx += args.nshards;
         run_one_case(&prop, &mut rng, &case, args.thorough, &mut t);
+        if t.violations.len() >= 40 {
+            t.inc("stopped_after_40_violations", 1);
+            break;
+        }
     }
     t.inc("stopped_by_time", stopped_by_time as u64);
     t.write(&args.out, &[("wall_s".to_string(), format!("{:.2}", start.elapsed().as_secs_f64()))]);
@@ -361,11 +365,19 @@ pub fn run_one_case(prop: &str, rng: &mut Rng, case: &Case, thorough: bool, t: &
         if nontrivial {
             t.distinct.insert(h);
         }
+        let mut confirmed_hang = false;
         for am in alloc_modes(prop) {
             for chunk in jobs.chunks(sys::MAX_CFG) {
+                if confirmed_hang || t.violations.len() >= 40 {
+                    // a tree that already violates: do not spend minutes per case on repeated hangs
+                    t.inc("jobs_skipped_after_violations", chunk.len() as u64);
+                    continue;
+                }
+                // canonical runs are capped at 2e5 (quick) / 1e6 (thorough) steps: every back end
+                // needs milliseconds; the ceiling is 3-5 s and 10x that when re-run alone
                 let ceiling = match prop {
                     "C07" | "C08" => 3,
-                    _ => if thorough { 20 } else { 10 },
+                    _ => if thorough { 5 } else { 3 },
                 };
                 let o = RunOpts { alloc_mode: am, ceiling_s: ceiling, ..Default::default() };
                 let obs = run_case(&case.code, chunk, &o);
@@ -375,6 +387,9 @@ pub fn run_one_case(prop: &str, rng: &mut Rng, case: &Case, thorough: bool, t: &
                     t.inc("events_compared", ob.n_events.min(EV_CAP as u64));
                     if ob.reran {
                         t.inc("isolated_reruns", 1);
+                        if ob.end == engine::End::Timeout {
+                            confirmed_hang = true;
+                        }
                     }
                     if ob.aux[5] >= 12 {
                         t.inc("bytecodes_with_stack_temps", 1);
